@@ -9,6 +9,7 @@ import (
 	"strings"
 	"sync"
 	"sync/atomic"
+	"syscall"
 	"time"
 
 	"verifharness/internal/h"
@@ -317,6 +318,7 @@ func opConns(evs string) (string, string) {
 	msg := &vss.Signature{RequestId: []byte("r"), Content: []byte("c")}
 	settle := func() { time.Sleep(120 * time.Millisecond) }
 	last, oracle := "-", ""
+	spinOracle := ""
 	served := map[int]bool{} // a request reached the real member x over a connection of this node
 	cut := map[int]bool{}    // … and the node itself then called DisConnectTo(x): that connection is still open at x
 	for _, ev := range splitList(evs, ";") {
@@ -374,12 +376,54 @@ func opConns(evs string) (string, string) {
 				last = "err stale"
 				oracle = fmt.Sprintf("not-serving-conn: a request to member %d fails after the history %q: %s", x, evs, h.OneLine(err.Error()))
 			}
+		case 'i':
+			// inbound (fzspin lines only): a peer connects to N, completes the handshake under its own id and hangs up
+			c, err := net.Dial("tcp", "127.0.0.1:"+portN)
+			if err != nil {
+				panic(err)
+			}
+			c.Write(idFrame([]byte(fmt.Sprintf("inbound-peer-id-%04d", atoi(ev[1:])))))
+			readFrame(c)
+			settle()
+			c.Close()
+			settle()
+			settle()
+		case 'S':
+			// spin probe (fzspin lines only): everything the history started is at rest now — connections ended or
+			// idle, no request in flight. CPU time of the process (not wall time: machine load cannot inflate it)
+			// over the next 1.5 s; a goroutine looping on a closed channel burns one core, i.e. ~1.5 s.
+			c0 := cpuSeconds()
+			time.Sleep(1500 * time.Millisecond)
+			if used := cpuSeconds() - c0; used > 0.6 && spinOracle == "" {
+				spinOracle = fmt.Sprintf("spin-after-hangup: the process used %.2f s of CPU in 1.5 s at rest after the history %q (a goroutine of an ended connection is looping)", used, evs)
+			}
 		default:
 			panic("bad conns event " + ev)
 		}
+	}
+	if spinOracle != "" {
+		oracle = spinOracle
 	}
 	F.mu.Lock()
 	k := F.accepted
 	F.mu.Unlock()
 	return fmt.Sprintf("%s dials=%d", last, k), oracle
+}
+
+// cpuSeconds: user + system CPU time of this process so far
+func cpuSeconds() float64 {
+	var ru syscall.Rusage
+	syscall.Getrusage(syscall.RUSAGE_SELF, &ru)
+	return float64(ru.Utime.Sec+ru.Stime.Sec) + float64(ru.Utime.Usec+ru.Stime.Usec)/1e6
+}
+
+// opFzSpin (`fzspin <history with S probes>`): oracle only — no goroutine of an ended connection spins
+// (/repo 6be4efc: decryptPipe looped on the closed channel of readPipe until the 60 s idle timer once the
+// peer had hung up; a peer that reconnects and hangs up kept a core busy for as long as it liked)
+func opFzSpin(evs string) (string, string) {
+	_, oracle := opConns(evs)
+	if !strings.HasPrefix(oracle, "spin-") {
+		oracle = ""
+	}
+	return "nopanic", oracle
 }
